@@ -144,5 +144,26 @@ PROPS["C04"] = {
     "assumptions": ["times in [0, 100 h); row fields without ',' (except the last column), line breaks or surrounding blanks; event text without stray braces; style floats whose 3-decimal rendering is exact (write clause)"],
 }
 
+
+PROPS["C19"] = {
+    "level_text": "The writer models are functions Subs -> bytes (same list, same bytes, argument untouched by construction). Machine-checked Lean theorems: sorting two enumerations of the same map by identifier gives the same list and identifier look-ups are enumeration-independent, hence the SRT, SSA and WebVTT writer models are invariant under every permutation of the Styles and Regions maps (any number of definitions, any attribute subsets) - i.e. the bytes do not depend on Go's map iteration order. Tied to /repo by det.write: cue lists with 0..6 styles/regions of heterogeneous attribute subsets written 50 times in all writer orders in one process (byte-identical, list snapshot unchanged after every write) and again in a second process (other hash seed; answers must be identical), with the STL clock injected; plus the per-codec *.write streams that compare the bytes with the models.",
+    "level_note": "Partial: permutation invariance is proved for the SRT, SSA and WebVTT writer models; for TTML and STL (writer models of C03/C05) the determinism clause is decided by the det.write stream only. 'No writer modifies its input' is immediate in the model and observational on the code (canonical snapshot before/after). Pinned defects D12/D13 (SSA Format columns and WebVTT STYLE blocks in map order) repaired by fix: commits.",
+    "technique": "Lean 4 proof (uniqueness of a sorted permutation under distinct identifiers: Perm.eq_of_pairwise over mergeSort) + repeated/cross-process differential runs",
+    "props": ["Astisub.Props.C19"],
+    "streams": [{"name": "det.write", "twice": True}],
+    "trust": ["Go maps are modelled as association lists in arbitrary order with distinct keys"],
+    "assumptions": ["map keys equal the definitions' identifiers"],
+}
+PROPS["C20"] = {
+    "level_text": "Machine-checked Lean theorem: for any number of calls, each a finite list of steps that read shared state and update only their own private state, every interleaving leaves each call with exactly the result it computes alone. The structural premise (no instruction of the package writes package-level state outside initialisation) is a theorem over Generated/Globals.lean, which is regenerated on every run from /repo's working tree by a go/ssa extractor (stores through addresses derived from package-level variables, map updates, calls that store through such an argument, mutating container methods) - a change that caches into or patches a shared table breaks the proof obligation. Data races proper are searched dynamically: conc.batch runs multisets of independent readers, writers and transformations on 2..32 goroutines under the Go race detector with randomized start order and GOMAXPROCS in {2,4,16} and compares every result with the sequential run.",
+    "level_note": "Partial by nature: no Lean model exhibits a Go data race; the theorem is about step interleavings under a structural no-shared-write premise. The extractor is intra-procedural plus one level of calls and does not look inside third-party packages (the lock-protected astikit.BiMap is read-only after init); the race detector only sees executed interleavings.",
+    "technique": "Lean 4 proof (commutation/frame invariant over schedules) with a regenerated structural premise (go/ssa fact extractor) + dynamic race detection",
+    "props": ["Astisub.Props.C20"],
+    "streams": [{"name": "conc.batch", "race": True}],
+    "generated": ["Astisub/Generated/Globals.lean"],
+    "trust": ["tools/globals (go/ssa based extractor) lists every write to package-level state it can see; Go race detector"],
+    "assumptions": ["calls do not share cue lists, readers or writers"],
+}
+
 NOT_APPLICABLE = {p: "not built yet in this session (work in progress; see DESIGN.md section 11 for the build order)" for p in
-                  ["C03","C05","C06","C07","C08","C19","C20"]}
+                  ["C03","C05","C06","C07","C08"]}
